@@ -232,9 +232,10 @@ def _fsym(s, path):
 
 
 class Analysis:
-  def __init__(self, body, cap=CAP):
+  def __init__(self, body, cap=CAP, adts=None):
     self.b = body
     self.cap = cap
+    self.adts = adts or {}
     self.reach = body.reachable_from(0)
     self.preds = body.preds()
     self.order = [x for x in body._rpo() if x in self.reach]
@@ -292,6 +293,7 @@ class Analysis:
       path = sy[-1][1]
     else:
       return ()
+    path = tuple(e for e in path if e != '#d' and e != '#len')
     out = set()
     for n in range(1, len(path) + 1):
       for names in self.fnames.get(path[-n:], ()):
@@ -403,7 +405,8 @@ class Analysis:
       return
     if k == 'discr':
       st.assign_tree(dst, {}, st.val(_sub(st.resolve(pkey(rv['p'])), DISCR)))
-      st.cmp[st.resolve(dst)] = ('discr', st.resolve(pkey(rv['p'])))
+      pty = rv['p'].get('ty') if rv['p'].get('p') else self.b.local_ty(rv['p']['l'])
+      st.cmp[st.resolve(dst)] = ('discr', st.resolve(pkey(rv['p'])), pty)
       return
     if k == 'agg':
       st.kill(dst, None)
@@ -462,6 +465,56 @@ class Analysis:
           inner = _sub(st.resolve(k), (('v', 'Some'), ('f', 0)))
           st.assign_tree(dst, st.subtree(inner), st.val(inner))
           return
+    LEN = ('#len',)
+    def ref_target(o):
+      src = o.get('c') or o.get('m')
+      if not src or src.get('p'):
+        return None
+      tg = [tk for tk, m in st.ref.get(src['l'], ())]
+      return tg[0] if len(tg) == 1 else None
+    if dst is not None and fn in ('std::vec::Vec::len', 'core::slice::<impl [T]>::len') and len(args) == 1:
+      tg = ref_target(args[0])
+      if tg is not None:
+        st.assign_tree(dst, {}, st.val(_sub(st.resolve(tg), LEN)))
+        return
+    if fn == 'std::vec::Vec::push' and len(args) == 2:
+      tg = ref_target(args[0])
+      if tg is not None:
+        k = _sub(st.resolve(tg), LEN)
+        st.m[k] = st.val(k) + Aff.const(1)
+        if dst is not None:
+          st.kill(dst, self._fresh(bb, ('call',)))
+        return
+    if dst is not None and len(args) == 1 and (fn.endswith('TryFrom>::try_from') or fn.endswith('TryInto>::try_into') or fn.endswith('::try_from') and 'convert::num' in fn):
+      v = self._opv(st, args[0])
+      st.kill(dst, None)
+      d = st.resolve(dst)
+      st.m[(d[0], d[1] + DISCR)] = self._fresh(bb, ('call', 'd'))
+      st.m[(d[0], d[1] + (('v', 'Ok'), ('f', 0)))] = v
+      return
+    if dst is not None and fn in ('std::result::Result::unwrap', 'std::result::Result::expect', 'std::option::Option::unwrap', 'std::option::Option::expect') and args:
+      src = args[0].get('c') or args[0].get('m')
+      if src:
+        k = st.resolve(pkey(src))
+        inner = _sub(k, (('v', 'Ok' if 'Result' in fn else 'Some'), ('f', 0)))
+        sub = st.subtree(inner)
+        if sub:
+          st.assign_tree(dst, sub, st.val(inner))
+          return
+    if dst is not None and fn.endswith('bool>::then_some') and len(args) == 2:
+      tree, v = self._optree(st, args[1])
+      st.kill(dst, None)
+      d = st.resolve(dst)
+      src = args[0].get('c') or args[0].get('m')
+      c = st.cmp.get(st.resolve(pkey(src))) if src else None
+      st.m[(d[0], d[1] + DISCR)] = Aff.sym(('then_some', c)) if c is not None else self._fresh(bb, ('call', 'd'))
+      base = d[1] + (('v', 'Some'), ('f', 0))
+      if tree:
+        for suf, tv in tree.items():
+          st.m[(d[0], base + suf)] = tv
+      else:
+        st.m[(d[0], base)] = v
+      return
     killed = []
     for a in args:
       killed += mut_targets(a)
@@ -493,7 +546,25 @@ class Analysis:
         if tgt not in succ:
           continue
         s2 = st.copy()
-        if c is not None and c[0] == 'discr':
+        if c is not None and c[0] == 'discr' and self._enum_variants(c[2]) is not None and _variant_name(self.b, c[1], 0) is None:
+          vs = self._enum_variants(c[2])
+          dv = s2.val(_sub(c[1], DISCR))
+          if lab != 'otherwise':
+            gl = [('Eq', dv, Aff.sym(('variant', vs.get(lab, f'#{lab}'))))]
+          else:
+            gl = [('Ne', dv, Aff.sym(('variant', vs.get(v, f'#{v}')))) for v, _ in t['vals']]
+          bad = False
+          for g in gl:
+            if (_NEG[g[0]], g[1], g[2]) in s2.guards:
+              bad = True
+            if g[0] == 'Eq' and any(h[0] == 'Eq' and h[1] == g[1] and h[2] != g[2] and h[2].single() and h[2].single()[0] == 'variant' for h in s2.guards):
+              bad = True
+          if bad:
+            continue
+          for g in gl:
+            if g not in s2.guards:
+              s2.guards = s2.guards + (g,)
+        elif c is not None and c[0] == 'discr':
           if lab != 'otherwise':
             nm = _variant_name(self.b, c[1], lab)
             if nm is not None:
@@ -533,6 +604,22 @@ class Analysis:
     if k == 'assert':
       return [(x, st) for x in succ]
     return [(x, st) for x in succ]
+
+  def _enum_variants(self, ty):
+    from .facts import norm
+    if not ty:
+      return None
+    a = self.adts.get(norm(ty).split('<')[0])
+    if not a or a.get('kind') != 'enum':
+      return None
+    out = {}
+    for i, v in enumerate(a.get('variants', [])):
+      d = v.get('discr')
+      try:
+        out[int(d) if d is not None else i] = v['n']
+      except (TypeError, ValueError):
+        out[i] = v['n']
+    return out
 
   # ---------------------------------------------------------------- merge
   def _merge(self, bb, states, force_loop=None):
